@@ -186,3 +186,108 @@ pub fn rep_node<'s, I: Kind<'s>, R: Er<'s, I>>(this: &mut Bld<'s, I, R>, r: &Rep
     }
 }
 
+
+// ---------------------------------------------------------------------------------------------
+// item sources joined by `then`, consumed as ONE IterParser (G::IterThen)
+
+fn flat(vs: Vec<Val>, sink: u8) -> Val {
+    let items: Vec<Val> = vs.into_iter().flat_map(|v| v.into_items()).collect();
+    if sink == 0 {
+        Val::List(items)
+    } else {
+        Val::Num(items.len() as u64)
+    }
+}
+
+/// every part collected on its own, the lists concatenated
+pub fn iter_then_fallback<'s, I: Kind<'s>, R: Er<'s, I>>(this: &mut Bld<'s, I, R>, parts: &[G], sink: u8) -> BP<'s, I, R> {
+    let mut ps: Vec<BP<'s, I, R>> = parts.iter().map(|g| this.build(g)).collect();
+    if ps.len() == 1 {
+        let a = ps.pop().unwrap();
+        a.map(move |x| flat(vec![x], sink)).cb()
+    } else {
+        let (b2, a) = (ps.pop().unwrap(), ps.pop().unwrap());
+        a.then(b2).map(move |(x, y)| flat(vec![x, y], sink)).cb()
+    }
+}
+
+type StrP<'s, R> = BP<'s, &'s str, R>;
+type ItemsFn = fn(Val) -> Vec<Val>;
+enum Part<'s, R: Er<'s, &'s str>> {
+    Rep(chumsky::combinator::Repeated<StrP<'s, R>, Val, &'s str, Ex<R>>),
+    Sep(chumsky::combinator::SeparatedBy<StrP<'s, R>, StrP<'s, R>, Val, Val, &'s str, Ex<R>>),
+    Opt(chumsky::combinator::OrNot<StrP<'s, R>>),
+    It(chumsky::combinator::IntoIter<chumsky::combinator::Map<StrP<'s, R>, Val, ItemsFn>, Vec<Val>>),
+}
+
+fn items_of(v: Val) -> Vec<Val> {
+    v.into_items()
+}
+
+fn part_of<'s, R: Er<'s, &'s str>>(this: &mut Bld<'s, &'s str, R>, g: &G) -> Part<'s, R> {
+    match g {
+        G::Rep(r) => {
+            let item = this.build(&r.item);
+            match &r.sep {
+                None => {
+                    let mut p = item.repeated().at_least(r.lo as usize);
+                    if let Some(h) = r.hi {
+                        p = p.at_most(h as usize);
+                    }
+                    Part::Rep(p)
+                }
+                Some(sep) => {
+                    let sep = this.build(sep);
+                    let mut p = item.separated_by(sep).at_least(r.lo as usize);
+                    if let Some(h) = r.hi {
+                        p = p.at_most(h as usize);
+                    }
+                    if r.leading {
+                        p = p.allow_leading();
+                    }
+                    if r.trailing {
+                        p = p.allow_trailing();
+                    }
+                    Part::Sep(p)
+                }
+            }
+        }
+        G::OrNot(a) => Part::Opt(this.build(a).or_not()),
+        G::IntoIter(a, _) => Part::It(this.build(a).map(items_of as ItemsFn).into_iter()),
+        other => unreachable!("not an item source: {:?}", other),
+    }
+}
+
+fn fin<'s, R: Er<'s, &'s str>, P>(p: P, sink: u8) -> StrP<'s, R>
+where
+    P: IterParser<'s, &'s str, Val, Ex<R>> + Clone + 's,
+{
+    if sink == 0 {
+        p.collect::<Vec<Val>>().map(Val::List).cb()
+    } else {
+        p.count().map(|n| Val::Num(n as u64)).cb()
+    }
+}
+
+macro_rules! with_part {
+    ($p:expr, |$x:ident| $body:expr) => {
+        match $p {
+            Part::Rep($x) => $body,
+            Part::Sep($x) => $body,
+            Part::Opt($x) => $body,
+            Part::It($x) => $body,
+        }
+    };
+}
+
+/// the real thing: `a.then(b)` of two item sources, consumed by one collect / count
+pub fn iter_then_str<'s, R: Er<'s, &'s str>>(this: &mut Bld<'s, &'s str, R>, parts: &[G], sink: u8) -> StrP<'s, R> {
+    let mut ps: Vec<Part<'s, R>> = parts.iter().map(|g| part_of(this, g)).collect();
+    if ps.len() == 1 {
+        let a = ps.pop().unwrap();
+        with_part!(a, |x| fin::<R, _>(x, sink))
+    } else {
+        let (b2, a) = (ps.pop().unwrap(), ps.pop().unwrap());
+        with_part!(a, |x| with_part!(b2, |y| fin::<R, _>(x.clone().then(y.clone()), sink)))
+    }
+}
